@@ -39,6 +39,8 @@ def simple_rows(pid, arrival, nops=1, prio="BATCH_PIPELINE"):
 def expected_tick(arrival_str, tps):
     """(set of acceptable ticks, strict_tick or None, on_grid flag)"""
     x = frac(arrival_str) * tps
+    if x < 0:
+        return {0}, False        # a backlog from before the run: first tick whose start is at or after the arrival time
     k = round(x)
     if near(x, k):
         if x == k:
@@ -73,7 +75,7 @@ def run_trace(scn):
     try:
         wt = CSVWorkloadReader(io.StringIO(text)).get_workload(tps)
         # windows around every expected delivery; the clock is only jumped between windows
-        wins = sorted(set((min(e[0]) - 2, max(e[0]) + 2) for e in exp))
+        wins = sorted(set((max(0, min(e[0]) - 2), max(e[0]) + 2) for e in exp))
         wi = 0
         t = 0
         while t < nticks:
@@ -179,7 +181,12 @@ def gen_trace(r, avoid_known=True):
             s = arrivals[-1]
         arrivals.append(s)
         t = frac(s)
-    last = int(frac(arrivals[-1]) * tps)
+    if r.random() < 0.12:
+        # a backlog submitted before the measured window
+        nb = r.randint(1, 4)
+        neg = sorted(-F(r.randint(1, 5000), 100) / tps * r.choice([1, 1, 50]) for _ in range(nb))
+        arrivals = [fstr(a) if _finite(a) else ("%.9f" % float(a)) for a in neg] + arrivals
+    last = max(0, int(frac(arrivals[-1]) * tps))
     end_kind = r.random()
     if end_kind < 0.6:
         nticks = last + r.randint(2, 10)
@@ -190,6 +197,7 @@ def gen_trace(r, avoid_known=True):
     jump = far or nticks > 3000
     if nticks > 3000 and not jump:
         nticks = 3000
+    nticks = max(1, nticks)
     return {"kind": "trace", "tps": tps, "nticks": nticks, "arrivals": arrivals,
             "nops": [r.choice([1, 1, 2, 3]) for _ in arrivals], "jump": jump}
 
@@ -314,6 +322,10 @@ def gen_pipes14(r):
             if r.random() < 0.2:
                 ops[-1]["law_as_callable"] = True
         pipes.append({"prio": r.choice(PRIOS), "at": t, "ops": ops})
+        if r.random() < 0.3:
+            # the writer numbers pipelines itself; whatever ids the workload used (the same job submitted twice,
+            # ids with commas or quotes) must not matter
+            pipes[-1]["id"] = r.choice(["nightly-etl", "nightly-etl", "job,7", 'say "hi"', "p1", "p2", ""])
     return pipes
 
 
